@@ -139,8 +139,8 @@ func (vm *Vm) Run(ctx context.Context, b []byte) ([]byte, error) {
 		waitChange := vm.st.ResetFlag(state.FLAG_WAIT)
 		if waitChange {
 			vm.st.ResetFlag(state.FLAG_INMATCH)
-			vm.pg.Reset()
-			vm.mn.Reset()
+			vm.pg = vm.pg.WithError(nil)
+			vm.Reset()
 		}
 
 		_ = vm.st.SetFlag(state.FLAG_DIRTY)
